@@ -6,11 +6,10 @@ set -u
 export GOFLAGS=-mod=mod GOPROXY=off GOSUMDB=off GOTOOLCHAIN=local
 run="$1"; opts="${2:-}"
 mkdir -p "$run"
-( cd /repo && go build -o "$run/protoc-gen-fastmarshal" ./cmd/protoc-gen-fastmarshal ) || { echo "BUILD-ERROR: protoc-gen-fastmarshal does not compile"; exit 2; }
-cd /verif/mc
+( cd "${VERIF_REPO:-/repo}" && go build -o "$run/protoc-gen-fastmarshal" ./cmd/protoc-gen-fastmarshal ) || { echo "BUILD-ERROR: protoc-gen-fastmarshal does not compile"; exit 2; }
+cd "${VERIF_DIR:-/verif}/mc"
 go build -o "$run/gencorpus" ./cmd/gencorpus || { echo "BUILD-ERROR gencorpus"; exit 2; }
-[ -d gen/all ] || { mkdir -p /verif/build/plugins; /verif/setup.sh >/dev/null 2>&1; }
-"$run/gencorpus" fm -plugin "$run/protoc-gen-fastmarshal" -out "$run/fm" ${opts:+-opts "$opts"} >/dev/null || { echo "BUILD-ERROR gencorpus fm"; exit 2; }
+"$run/gencorpus" fm -genroot "${VERIF_DIR:-/verif}/mc/gen" -plugin "$run/protoc-gen-fastmarshal" -out "$run/fm" ${opts:+-opts "$opts"} >/dev/null || { echo "BUILD-ERROR gencorpus fm"; exit 2; }
 # compile every corpus package with its fast-marshal file; collect the failing ones
 go build -overlay "$run/fm/overlay.json" ./gen/... > "$run/compile.out" 2>&1
 python3 - "$run" <<'PY'
